@@ -112,6 +112,11 @@ class Counter:
     def poke_pop(self, target):
         return target.pop()
 
+    def relay_fail(self, target, tag, payload):
+        # `target` is a proxy of a hosted Counter (possibly of this one), used inside the server:
+        # the method that actually raises is the *inner* `fail`
+        return target.fail(tag, payload)
+
 
 def _register():
     from mpservice.multiprocessing.server_process import ServerProcess
@@ -152,6 +157,13 @@ def canon(v, agent=None, keep=None):
     return {'$repr': type(v).__name__}
 
 
+def tb_frames(text):
+    """[function name, line number] of every frame of a hosted class's own method (defined in this
+    file) in a formatted traceback, outermost first"""
+    import re
+    return [[m.group(2), int(m.group(1))] for m in re.finditer(r'e4_mgr\.py", line (\d+), in (\w+)', text)]
+
+
 def canon_exc(e):
     from mpservice.multiprocessing.remote_exception import get_remote_traceback, is_remote_exception
     try:
@@ -159,7 +171,7 @@ def canon_exc(e):
         tb = get_remote_traceback(e) if remote else ''
     except Exception:  # noqa
         remote, tb = False, ''
-    return {'$exc': type(e).__name__, 'args': canon(tuple(e.args)), 'remote': remote,
+    return {'$exc': type(e).__name__, 'args': canon(tuple(e.args)), 'remote': remote, 'tb_frames': tb_frames(tb or ''),
             'tb_has_site': 'Traceback (most recent call last)' in (tb or '') and type(e).__name__ in (tb or ''),
             'tb_len': len(tb or '')}
 
